@@ -53,6 +53,7 @@ def cases(seed, tier):
                                              'subwf2-rerun']),
                         'delay': prng.choice([20, 20, 5, -1]),
                         'n_items': prng.randint(2, 4),
+                        'deadlock': prng.random() < 0.3,
                         'strategy': {'name': prng.choice(['fifo', 'random']),
                                      'seed': prng.randint(0, 10 ** 6)},
                         'scheduler': prng.choice(['legacy', 'default']),
@@ -513,10 +514,55 @@ def integrity_part(case, res):
             task_handler.schedule_on_action_complete = sched
             w._restore = lambda: setattr(
                 task_handler, 'schedule_on_action_complete', orig)
+    dl = {'hit': False}
+    if case.get('deadlock'):
+        # ... and one invocation of the integrity job itself is hit by a
+        # transient database error (deadlock at its first writing
+        # statement): the periodic check must survive that
+        inner = hook
+
+        def hook(w, inner=inner):
+            inner(w)
+            from oslo_db import exception as db_exc
+            from sqlalchemy import event
+            import mistral.db.sqlalchemy.base as b
+            eng = b.get_engine()
+
+            def inject(conn, cursor, statement, parameters, context,
+                       executemany):
+                u = w.coop.current()
+                if dl['hit'] or u is None or \
+                        'integrity' not in (u.label or ''):
+                    return
+                if statement.lstrip()[:6].upper() not in (
+                        'INSERT', 'UPDATE', 'DELETE'):
+                    return
+                if 'scheduled_jobs_v2' in statement or \
+                        'delayed_calls_v2' in statement:
+                    # the scheduler's own capture / delete (C13 covers a
+                    # deadlock there); unless it is the job re-scheduling
+                    # itself inside its transaction
+                    if not statement.lstrip().upper().startswith('INSERT'):
+                        return
+                dl['hit'] = True
+                w.rec.emit('FAULT', fault='db-deadlock', unit_label=u.label)
+                raise db_exc.DBDeadlock()
+            event.listen(eng, 'before_cursor_execute', inject)
+            w._remove_inject = lambda: event.remove(
+                eng, 'before_cursor_execute', inject)
     run = ec.execute(base_case, setup_hook=hook)
     w = run.world
     if hasattr(w, '_restore'):
         w._restore()
+    if hasattr(w, '_remove_inject'):
+        try:
+            w._remove_inject()
+        except Exception:
+            pass
+    if case.get('deadlock'):
+        res['monitor_evaluations']['integrity-job-deadlock'] = \
+            res['monitor_evaluations'].get('integrity-job-deadlock', 0) + \
+            (1 if dl['hit'] else 0)
     res['executions'] += 1
     ec.merge_counts(res['events'], run.events)
     ec.merge_counts(res['monitor_evaluations'], run.mon_evals)
@@ -526,7 +572,8 @@ def integrity_part(case, res):
     if run.inconclusive:
         res['inconclusive'] = run.inconclusive
         return
-    desc = {'lost': kind, 'delay': delay}
+    desc = {'lost': kind, 'delay': delay,
+            'deadlock_in_integrity_job': bool(dl['hit'])}
 
     def viol(mech, msg):
         res['violations'].append(dict(desc, prop='C20',
